@@ -63,7 +63,7 @@ def generate(tag, consts, sample=None, rng=None, simulate=None, depth=None, seed
         def score(line):
             sc = 0
             for pat, w in (('"op":"announce"', 2), ('"op":"close"', 2), ('"how":"inv"', 1), ('"how":"headers"', 1), ('"op":"restart"', 2),
-                           ('"raw":true', 2), ('"op":"ask"', 1), ('"t":"closed"', 2)):
+                           ('"raw":true', 2), ('"op":"ask"', 1), ('"t":"closed"', 2), ('"banned":true', 40)):
                 sc += w * min(line.count(pat), 2)
             if '"p":1' in line and '"p":2' in line:
                 sc += 2
